@@ -79,4 +79,14 @@ CHECKS = {
              '(type-exact; previous/value by identity) and the position of the deliveries between the marks taken '
              'around set_output() are compared with the model.',
         note='NaN excluded; the result of Event.send() is not observable for output events.'),
+    'C12': dict(
+        level='exploration', design_ref='DESIGN.md 4/C12',
+        technique=PBT + '; history invariants over the log of puts, coroutine starts/ends, result events and output changes on the virtual clock; exhaustive arrival grid (thorough)',
+        text='Generated arrival patterns (simultaneous, during a run, during guard time), run durations, failing runs, '
+             'stop instant and generous/tight stop_timeout for the three modes; exactly one result event with the '
+             'original put data per accepted event, FIFO/non-overlap (wait), single active run, cancellation only by a '
+             'newer event and completion of the most recent one (cancel), start at arrival (start), guard_time '
+             'separation, output == number of active runs at every change and 0 when idle, stop_data started last. '
+             'Thorough enumerates all multisets of <=3 arrivals on a 7-point grid x durations x stop instants.',
+        note='Completion, cancellation causes and stop_data order are asserted only with a generous stop_timeout, as the property conditions them on it.'),
 }
